@@ -28,7 +28,9 @@ THEOREMS = ["frame_roundtrip", "frame_roundtrip_device", "report_roundtrip", "fr
             "success_sound", "success_sound_serial", "success_complete", "never_partial_success", "lost_frame_surfaces",
             "status_mirrors_device", "property_values_mirror_device", "packets_bounded", "data_written_once_in_order",
             "faultfree_refines_spec", "write_reaches_memory", "host_terminates",
-            "sdp_read_complete", "sdp_read_exact", "sdp_write_once_in_order", "sdp_write_success_sound", "sdp_hid_data_once_in_order"]
+            "sdp_read_complete", "sdp_read_exact", "sdp_write_once_in_order", "sdp_write_success_sound", "sdp_hid_data_once_in_order",
+            "faultfree_refines_spec_families_serial", "faultfree_refines_spec_families_hid", "families_side_conditions_hold",
+            "hid_report_roundtrip_device"]
 OPN = {1: "flash_erase_all", 2: "flash_erase_region", 3: "read_memory", 34: "read_memory(fast)", 4: "write_memory", 5: "fill_memory",
        6: "flash_security_disable", 7: "get_property", 8: "receive_sb_file", 9: "execute", 10: "call", 12: "set_property",
        13: "flash_erase_all_unsecure", 14: "efuse_program_once", 15: "efuse_read_once", 16: "flash_read_once",
@@ -872,7 +874,7 @@ def run(tier):
     t0 = time.time()
     model_ok, mout = vlib.coq_make(["Model/MbootModel.vo"])
     if THEOREMS:
-        vlib.check_theorems(rep, PID, THEOREMS, ["Proofs/MbootProofs.vo", "Proofs/SdpProofs.vo"])
+        vlib.check_theorems(rep, PID, THEOREMS, ["Proofs/MbootProofs.vo", "Proofs/SdpProofs.vo", "Proofs/MbootSpecProofs.vo"])
         if tier == "thorough":
             vlib.coqchk(rep, PID, THEOREMS)        # independent re-check of the compiled theorem closure
     vlib.audit(rep)
@@ -1001,7 +1003,7 @@ def run(tier):
                       "hand models Model/MbootModel.v and Model/SdpModel.v tied by correspondence on every observable",
                       "DeviceBase stubs (pyserial read semantics, immediate time-out) stand for the UART / USB drivers",
                       "reference bootloader tools/impl/c10_refdev.py = Coq dev_command/sdev_recv/hdev_recv (compared state by state)"],
-        checker_cmd="coqc -R . V Props/C10/*.v (after make Proofs/MbootProofs.vo Proofs/SdpProofs.vo; thorough: coqchk -o over the closure)",
+        checker_cmd="coqc -R . V Props/C10/*.v (after make Proofs/MbootProofs.vo Proofs/SdpProofs.vo Proofs/MbootSpecProofs.vo; thorough: coqchk -o over the closure)",
         assumptions=["wall-clock time-outs are not modelled: an exhausted device stream raises the time-out at once",
                      "USB-HID has no integrity check at this layer: payload corruption on HID is outside the fault model",
                      "arguments are non-negative integers"])
